@@ -93,7 +93,7 @@ PROPS["C03"] = dict(
     floors={"quick": dict([(c, 1) for c in _C03_CLASSES] + [
         ("rem_node_with_two_children", 5), ("insert_recolour_propagates", 1), ("insert_rotation", 5),
         ("drained_to_empty", 3), ("rem_root", 10), ("resize_0", 1), ("assign_from_table", 1), ("copies", 1),
-        ("validations_of_trees_of_height_6_or_more", 10)])},
+        ("validations_of_trees_of_height_6_or_more", 10), ("trees_with_values_wider_than_keys", 100)])},
     rule="case = one Tree driven through a pattern of 40-900 (thorough: up to 17000) operations, oracle after every "
          "operation; distinct = hash of the operation list; non-trivial = at least 20 operations",
     assumptions=["Int keys stay within +-2^41 so differences cannot overflow (C09 owns the boundaries)"],
@@ -112,7 +112,7 @@ PROPS["C04"] = dict(
     quick=[("asan", 16, 36), ("plain", 8, 36)],
     thorough=[("asan", 16, 500), ("plain", 16, 1500), ("memcheck", 8, 3, {"budget": 900})],
     floors={"quick": {"array_growth_reallocations": 10, "array_shrink_reallocations": 10, "push_at_front": 5, "push_at_0_on_an_empty_list": 20, "concat_from_a_tuple": 30, "concat_from_a_tuple_onto_an_empty_container": 3,
-                      "push_at_last_index": 5, "pop_at_front": 5, "pop_at_last_index": 5, "sorts_with_ties": 5,
+                      "push_at_last_index": 5, "pop_at_front": 5, "pop_at_last_index": 5, "sorts_with_ties": 5, "sorts_by_a_reflexive_comparison": 100,
                       "rem_with_duplicates": 5, "concat": 5, "assign": 5, "copy": 5, "push_at_negative": 5}},
     rule="case = one Array/List/Tuple driven through 30-220 (thorough: up to 1800) random in-range operations, oracle "
          "after every operation; distinct = hash of the operation list; non-trivial = at least 15 operations",
@@ -209,7 +209,7 @@ PROPS["C01"] = dict(
     floors={"quick": {"forced_collections": 50, "threshold_collections_that_freed_something": 10,
                       "sweeps_that_freed_something": 10, "rootkind_checked:stack": 1,
                       "rootkind_checked:root-holder": 1, "rootkind_checked:thread-local": 1, "rings": 1,
-                      "complete_graphs": 1, "deep_copies_checked": 5000, "containers_retyped_by_assign": 300, "containers_obtained_by_copy": 300, "rooted_shapes": 4, "root_holders_stored_in_thread_local_storage": 10,
+                      "complete_graphs": 1, "deep_copies_checked": 5000, "containers_retyped_by_assign": 300, "containers_obtained_by_copy": 300, "register_only_references_checked": 100, "rooted_shapes": 4, "root_holders_stored_in_thread_local_storage": 10,
                       "root_holders_referenced_by_another_root_holder": 1, "edges_to_root_holders": 10,
                       "chains_of_1e6": 1, "container_bursts": 10, "cases_run_in_a_worker_thread": 20, "explicit_deletions": 5,
                       "boxes": 10}},
@@ -267,7 +267,7 @@ PROPS["C06"] = dict(
                       "deletions_inside_stop_window": 10, "allocations_inside_stop_window": 10,
                       "worker_teardowns_with_live_garbage": 50, "process_teardowns_with_live_garbage": 50,
                       "del_root": 20, "del_raw": 20, "del_of_box": 10, "containers_of_boxes": 20,
-                      "forced_collections": 50, "deep_copies_of_owners": 300, "deep_copies_deleted_by_hand": 80}},
+                      "forced_collections": 50, "forced_collections_inside_stop_window": 30, "deep_copies_of_owners": 300, "deep_copies_deleted_by_hand": 80}},
     rule="case = 30-150 (thorough: up to 330) random allocation/deletion/ownership/collection/stop-start operations "
          "on the main thread, in a worker thread, or in a forked child process; distinct = hash of the operation "
          "list; non-trivial = at least 20 operations",
